@@ -6,7 +6,7 @@ from ..paths import REPO
 
 RULE = ("the extension is BUILT FROM /repo's current Debyer.pyx on every run (cython + gcc -fopenmp into a scratch directory that is removed afterwards); "
         "_chunk(n, c) for every n in 0..40 x c in 0..n+4 compared EXACTLY with the Lean model (rows, refusal) and with 'the rows partition range(n) in order'; "
-        "calculate() on random trajectories: 1-3 frames with their own boxes, 1-14 sites per selection, random molecule labels (not contiguous, several molecules), "
+        "calculate() on random trajectories: 1-3 frames with their own boxes, 1-14 sites per selection, random molecule labels (not contiguous, several molecules, also shifted beyond the 32-bit range: 2^31, 2^32+5, -2^31-7, 1e12, 2^62), long trajectories of 129-300 frames each with its own box, "
         "self and cross correlations, coordinate families {wrapped into the box, centred, unwrapped random walks spanning several box lengths, collinear rods, "
         "coincident sites, separations of exactly half a box}, Domain length 2-8 from dk, num_chunks 1..n+3 (also more chunks than sites), OpenMP thread counts "
         "{1,2,3,4,8} set through libgomp; result compared with the Lean model executed on the same float32-rounded inputs and with an independent float64 "
@@ -124,7 +124,8 @@ def run_impl(mod, case, c=None, threads=None, perm=None):
     nb = case['nbins']
     dom = pyPRISM.Domain(length=nb, dk=case['dk'])
     self_ = case['self']
-    m1 = np.array(case['M1'], dtype=np.int64); m2 = m1 if self_ else np.array(case['M2'], dtype=np.int64)
+    off = int(case.get('lab_off', 0))          # molecule labels are arbitrary 64-bit integers (hashed ids, chain*10**9 + i); only their equality matters
+    m1 = np.array(case['M1'], dtype=np.int64) + np.int64(off); m2 = m1 if self_ else np.array(case['M2'], dtype=np.int64) + np.int64(off)
     ft = np.float32 if case.get('f32') else float          # trajectories are often stored in single precision
     p1 = np.array([np.array(fr['R1'], dtype=ft).reshape(-1, 3) for fr in case['frames']])
     p2 = p1 if self_ else np.array([np.array(fr['R2'], dtype=ft).reshape(-1, 3) for fr in case['frames']])
@@ -196,7 +197,8 @@ def suite_sequence(ctx, case):
         one = dict(call, nbins=nb, dk=case['dk'], c=case['c'], threads=case['threads'])
         ref, tol, k = reference(one)
         self_ = call['self']
-        m1 = np.array(call['M1'], dtype=np.int64); m2 = m1 if self_ else np.array(call['M2'], dtype=np.int64)
+        off = int(case.get('lab_off', 0))
+        m1 = np.array(call['M1'], dtype=np.int64) + np.int64(off); m2 = m1 if self_ else np.array(call['M2'], dtype=np.int64) + np.int64(off)
         ft = np.float32 if case.get('f32') else float
         p1 = np.array([np.array(fr['R1'], dtype=ft).reshape(-1, 3) for fr in call['frames']])
         p2 = p1 if self_ else np.array([np.array(fr['R2'], dtype=ft).reshape(-1, 3) for fr in call['frames']])
@@ -245,15 +247,19 @@ def gen_positions(rng, fam, n, L):
 
 FAMS = ['wrapped', 'wrapped', 'centred', 'unwrapped', 'unwrapped', 'rod', 'coincident', 'halfbox']
 
-def gen_calc(rng, big=False):
+LAB_OFF = [0, 0, 0, 2 ** 31, 2 ** 31 - 3, 2 ** 32 + 5, -2 ** 31 - 7, -2 ** 40, 10 ** 12, 2 ** 62]
+def gen_calc(rng, big=False, many=False):
     self_ = rng.random() < 0.55
     n1 = rng.randint(1, 30 if big else 14); n2 = n1 if self_ else rng.randint(1, 30 if big else 14)
+    if many: n1 = rng.randint(2, 5); n2 = n1 if self_ else rng.randint(2, 5)
     nmol = rng.randint(1, 4); labels = rng.sample(range(0, 50), nmol)
     M1 = [rng.choice(labels) for _ in range(n1)]
     M2 = M1 if self_ else [rng.choice(labels + ([77] if rng.random() < 0.2 else [])) for _ in range(n2)]
     fam = rng.choice(FAMS)
+    if many: fam = rng.choice(['unwrapped', 'unwrapped', 'wrapped'])
     frames = []
-    for _ in range(rng.randint(1, 3)):
+    # many: a long constant-pressure trajectory (every frame has its own box)
+    for _ in range(rng.choice([129, 130, 200, 257, 300]) if many else rng.randint(1, 3)):
         L = [float('%.6g' % rng.uniform(2.0, 20.0)) for _ in range(3)] if fam != 'rod' else [1000.0, 1000.0, 1000.0]
         if fam == 'halfbox': L = [float(rng.choice([2.0, 4.0, 8.0, 16.0])) for _ in range(3)]
         fr = {'L': L, 'R1': gen_positions(rng, fam, n1, L)}
@@ -261,7 +267,7 @@ def gen_calc(rng, big=False):
         frames.append(fr)
     c = rng.choice([1, 2, 3, 4, n1, n1 + 1, n1 + 3, max(1, n1 // 2), max(1, n1 - 1)])
     return {'self': self_, 'M1': M1, 'M2': None if self_ else M2, 'frames': frames, 'fam': fam,
-            'nbins': rng.randint(2, 8), 'dk': float('%.5g' % (10 ** rng.uniform(-1.3, 0.5))),
+            'nbins': rng.randint(2, 3) if many else rng.randint(2, 8), 'dk': float('%.5g' % (10 ** rng.uniform(-1.3, 0.5))), 'lab_off': rng.choice(LAB_OFF),
             'c': c, 'threads': rng.choice([1, 2, 3, 4, 8]),
             'alt_c': sorted(set([1, rng.randint(1, n1 + 2), n1])), 'alt_threads': sorted(set([1, rng.choice([2, 3, 4, 8])])), 'pseed': rng.randrange(10 ** 6), 'f32': rng.random() < 0.3}
 
@@ -289,13 +295,15 @@ def generate(ctx):
                 fr = {'L': L, 'R1': gen_positions(rng, 'wrapped', nA, L), 'R2': gen_positions(rng, 'wrapped', nB, L)}
                 calls.append({'self': False, 'M1': MA, 'M2': MB, 'frames': [fr], 'fam': 'wrapped'})
                 calls.append({'self': True, 'M1': MA, 'M2': None, 'frames': [{'L': L, 'R1': fr['R1']}], 'fam': 'wrapped'})
-        case = {'f32': rng.random() < 0.4, 'calls': calls, 'nbins': rng.randint(2, 6), 'dk': float('%.5g' % (10 ** rng.uniform(-1.3, 0.5))), 'c': rng.choice([1, 2, 3, 4, 7]), 'threads': rng.choice([1, 2, 4])}
+        case = {'f32': rng.random() < 0.4, 'lab_off': rng.choice(LAB_OFF), 'calls': calls, 'nbins': rng.randint(2, 6), 'dk': float('%.5g' % (10 ** rng.uniform(-1.3, 0.5))), 'c': rng.choice([1, 2, 3, 4, 7]), 'threads': rng.choice([1, 2, 4])}
         ctx.case('sequence', case, True, tags=['sequence:%d' % len(calls), 'chunks:%d' % case['c']])
         suite_sequence(ctx, case)
-    for q in range(ctx.n(150, 2500)):
+    nmany = ctx.n(4, 24)
+    for q in range(ctx.n(150, 2500) + nmany):
         ctx.check_time()
-        case = gen_calc(rng, big=(ctx.tier != 'quick' and q % 3 == 0))
+        case = gen_calc(rng, big=(ctx.tier != 'quick' and q % 3 == 0), many=q < nmany)
         ctx.case('calc', case, case['c'] > 1 and case['threads'] > 1,
                  tags=['fam:' + case['fam'], 'self' if case['self'] else 'cross', 'frames:%d' % len(case['frames']), 'threads:%d' % case['threads'],
-                       'chunks:' + ('1' if case['c'] == 1 else 'gt-n' if case['c'] > len(case['M1']) else 'le-n'), 'mols:%d' % len(set(case['M1']))])
+                       'chunks:' + ('1' if case['c'] == 1 else 'gt-n' if case['c'] > len(case['M1']) else 'le-n'), 'mols:%d' % len(set(case['M1'])),
+                       'labels:' + ('small' if case['lab_off'] == 0 else 'beyond-int32')])
         suite_calc(ctx, case)
